@@ -58,6 +58,8 @@ def check(ctx):
     repo = ctx.repo
     from . import generic as _gen
     _gen.language_traps(ctx, _gen.anchor_functions(repo, "C04"), "the property holds for every input, on every call")
+    _gen.split_pieces_on_empty(ctx, repo, [f for f in _gen.module_functions(repo, "dataiter.aggregate") if f.name.startswith("yield_groups")],
+                                 "one summary per group: a zero-row frame has no groups, with Numba or without")
     _gen.argument_as_given(ctx, repo.fn("dataiter.data_frame.DataFrame.split"), repo.fn("dataiter.data_frame.DataFrame.split").vararg or "by", [("b",)],
                            "split partitions by the columns it is given, whatever an earlier group_by() left behind")
     _gen.rank_orders_values(ctx, repo.fn("dataiter.vector.Vector.rank"), "one summary row per distinct key, ascending by the group columns")
@@ -291,6 +293,10 @@ def check(ctx):
         X, G = k.params[0], k.params[1]
         loops = [n for n in body_nodes(k.node) if isinstance(n, ast.For)]
         ok = False
+        if not loops or pmatch("range(1, _N + 1)", loops[0].iter) is None:
+            # the scan has been rewritten (boundaries computed with whole-array operations): this rule reads the index loop
+            # only; it gives no verdict on another algorithm
+            raise AnalysisError(f"{k.qualname} no longer scans the group ids with `for j in range(1, n + 1)`: MPT-3 reads that loop only")
         if loops:
             l = loops[0]
             bl = pmatch("range(1, _N + 1)", l.iter)
